@@ -7,7 +7,7 @@ Local Open Scope string_scope.
 (* Holder::build with key binding returns prefix ++ kb where kb signs {alg, typ: kb+jwt} and
    {aud, iat, nonce, sd_hash = hash of exactly the prefix under the token's _sd_alg} *)
 Theorem build_bound_shape O E h a cseg c claims alg aud jalg kb :
-  jwt_parts_m (h_jwt h) = Val (a, cseg, c) -> o_claims O cseg = Ok claims -> jhas "cnf" claims = true ->
+  jwt_parts_m (h_jwt h) = Val (a, cseg, c) -> o_claims O cseg = Ok claims -> kb_bound claims = true ->
   declared_halg claims = Some alg -> h_kb h = Some (aud, jalg) ->
   e_sign E (kb_header jalg) (kb_claims aud (e_nonce E) (e_iat E) (o_hash O alg (presentation_prefix (h_jwt h) (selected h)))) = Val kb ->
   holder_build O E h = Val (presentation_prefix (h_jwt h) (selected h) ++ kb).
@@ -18,7 +18,7 @@ Qed.
 
 (* without cnf the presentation is just the prefix *)
 Theorem build_unbound_shape O E h a cseg c claims :
-  jwt_parts_m (h_jwt h) = Val (a, cseg, c) -> o_claims O cseg = Ok claims -> jhas "cnf" claims = false ->
+  jwt_parts_m (h_jwt h) = Val (a, cseg, c) -> o_claims O cseg = Ok claims -> kb_bound claims = false ->
   holder_build O E h = Val (presentation_prefix (h_jwt h) (selected h)).
 Proof.
   intros Hj Hc Hb. unfold holder_build. rewrite Hj. cbn [obind]. rewrite Hc. cbn [of_res obind]. rewrite Hb. reflexivity.
@@ -32,7 +32,7 @@ Proof.
   intros p1 p2. unfold holder_build.
   destruct (jwt_parts_m (h_jwt h)) as [[[a cseg] c]| |]; cbn [obind]; try discriminate.
   destruct (o_claims O cseg) as [claims|]; cbn [of_res obind]; try discriminate.
-  destruct (jhas "cnf" claims) eqn:Eb.
+  destruct (kb_bound claims) eqn:Eb.
   - destruct (h_kb h) as [[aud jalg]|]; cbn [andb]; try discriminate.
     destruct (declared_halg _) as [alg|]; try discriminate.
     destruct (e_sign E1 _ _) as [k1| |]; cbn [obind]; try discriminate. intros H1; injection H1 as <-.
